@@ -76,9 +76,23 @@ CLAIMS = {
     "C04": dict(cat="proof", ref="DESIGN.md section 5 C04",
                 text="PARTIAL proof (tokenizers). Props/C04.v proves on the regenerated html and xml tables: EOF handling reads no "
                      "input and reaches an EOF-emitting arm within |states| steps from every state (acyclic EOF graph), "
-                     "process_char_ref's panic arm is unreachable, every arm ends in a transition. Tree builders, stack depth and "
+                     "process_char_ref's panic arm is unreachable, every arm ends in a transition. TERMINATION of the html tokenizer is "
+                     "proved with an explicit fuel bound (TokIR/Termination.v generic in the table, Inst/InstTermination.v on the "
+                     "regenerated html table; reference semantics: exact_errors = true, flat queue): with unread(m) = queue + eat() "
+                     "look-ahead stash + what a pending character reference may put back + reconsume flag, every continuing step "
+                     "decreases (unread, state rank) lexicographically, so run() with fuel >= (T+1)(2T+10), T = unread(m), never runs "
+                     "out of fuel (C04_html_tokenizer_run_terminates), nor does end() with its EOF loop "
+                     "(C04_html_tokenizer_end_terminates), nor any feed / end() of the whole driver for any chunking, sink answers and "
+                     "injected text with fuel computed from the total input length (C04_html_driver_terminates; also "
+                     "C03_reference_driver_is_regular_with_enough_fuel) - under decidable conditions re-decided on every run "
+                     "(C04_html_arms_make_progress: every arm that may end without consuming goes to a state of smaller rank, rank "
+                     "computed from the table; EOF arms neither read nor emit tags and stop within 4 arms) and an invariant true of "
+                     "every fresh tokenizer. The bound is quadratic because the entity table is abstract. Not covered by the "
+                     "termination proof: the xml table (its eat/discard differ), the default mode with bulk reads over the chunked "
+                     "queue (tied to the reference run by BulkSim only for regular runs), the harness's limit of 50 script pauses per "
+                     "chunk (SPanic 96) and the genuine panic values. Tree builders, stack depth and "
                      "time are covered by the harness only (panic/abort/hang watch, queue-empty and single-EOF oracles, deep nesting).",
-                note=TOK_NOTE, tech="reflective Coq checks (EOF rank, char-ref states) + totality oracle incl. pathological inputs"),
+                note=TOK_NOTE, tech="reflective Coq checks (EOF rank, char-ref states) + Coq termination proof of the tokenizer interpreter with explicit fuel bound (potential function, rank check on the regenerated table) + totality oracle incl. pathological inputs"),
     "C08": dict(cat="proof", ref="DESIGN.md section 5 C08",
                 text="PARTIAL proof. Props/C08.v proves on the regenerated tables that every bulk-read state's character set contains "
                      "every character the slow path treats specially and that its default arm is the per-character form of the run "
